@@ -10,27 +10,37 @@ CFG = {
     "level_text": "Coq theorems: every operation of the pure mesh model (Mesh/Pure.v: append, unweld, remove-unreferenced, "
                   "remove-null-faces, flip, to-point-cloud, filters, crop, split, weld, repeat, set-indices/attribute/"
                   "materials under their side conditions, translate/scale/rotate/TRS/centre) maps well-formed meshes to "
-                  "well-formed meshes or a declared failure, never a crash, for every input mesh and parameter, and "
-                  "therefore every history of operations does (induction over the history). The model is tied to the Go "
-                  "code on every run by executing the implementation on random well-formed meshes (histories of depth <= 4) "
-                  "and evaluating model = implementation in Coq; the boolean well-formedness test wfb (proved equivalent to "
-                  "wf) is applied directly to every mesh the implementation returns, including the output of every geometry "
-                  "generator over exhaustive small and sampled larger parameterisations",
-    "level_note": "Generators (primitives, extrude, repeat, marching, triangulation) are not modelled here: their outputs "
-                  "are judged by the certified oracle wfb only (the primitives' index formulas are proved under C18). "
+                  "well-formed meshes or a declared failure, never a crash, for every input mesh and parameter (step_wf), and "
+                  "therefore every history of operations does (run_wf, induction over the history); wf implies every "
+                  "accessor stays in range; the primitives' index formulas (sphere, unwelded sphere, hemisphere, cylinder, "
+                  "cube; proved in range for every admissible count under C18) give well-formed meshes (wf_generators_partial). "
+                  "The model is tied to the Go code on every run by executing the implementation on random well-formed meshes "
+                  "(histories of depth <= 4) and evaluating model = implementation in Coq; the boolean well-formedness test wfb "
+                  "(proved equivalent to wf) is applied directly to every mesh the implementation returns, including the output "
+                  "of every geometry generator (primitives, extrusions, repeat, marching cubes, triangulation) over fixed "
+                  "corner counts, a window of the exhaustive small counts and sampled larger parameterisations",
+    "level_note": "Generators other than the five primitives families (cone, circle, quad, extrude.*, repeat.* transforms, "
+                  "marching, Bowyer-Watson) are not modelled: their outputs are judged by the certified oracle wfb only. "
                   "Trusted: Coq kernel + vm_compute; hand-written model tied by differential correspondence only",
     "technique": "Coq proof (per-operation closure lemmas, induction over histories) + vm_compute correspondence check + "
                  "certified boolean oracle on every implementation output",
     "design_ref": "DESIGN.md §3.2, §4 C02, §5 #2",
     "n_quick": 1000, "n_thorough": 10000,
-    "rule": "operation cases as for C03 (random well-formed meshes of 6 topologies, 27 operations, histories of depth 1-4, "
-            "composition laws) plus generator cases: every generator over its small integer parameters (0..12, incl. "
-            "degenerate and negative values) and sampled larger ones; distinct by input; non-trivial = the operation or "
-            "generator returned a mesh with at least one index",
+    "rule": "17 fixed operation cases and 29 fixed generator corner cases; generator cases (at most 260 in the quick tier): "
+            "21 generators (UV sphere welded/unwelded, hemisphere, cube welded/quads, quad, circle, cylinder with/without "
+            "caps and UVs, cone, extrude polygon/circle/line/shape/closed shape, repeat circle/line/Fibonacci of 5 base "
+            "meshes, marching sphere/box/line through Field.March and the sequential/parallel canvas, Bowyer-Watson), a "
+            "rotating window of the exhaustive counts 0..8 (thorough: all of 0..12) plus random parameterisations incl. "
+            "degenerate and negative counts; the rest: operation cases as for C03 (random well-formed meshes of 6 "
+            "topologies, 27 operations, histories of depth 1-4, composition laws); distinct by input; non-trivial = the "
+            "operation or generator returned a mesh with at least one index",
     "trusted": ["generator outputs are projected to (topology, indices, attribute names and lengths, materials); values "
                 "are irrelevant to well-formedness",
-                "a generator that panics on a parameterisation is counted as 'not accepted' (recorded in the distribution), "
-                "as the property quantifies over accepted parameterisations"],
+                "a generator that panics on a parameterisation outside its documented domain is counted as 'not accepted' "
+                "(recorded in the distribution), as the property quantifies over accepted parameterisations; inside the "
+                "documented domain (rows>=2, columns>=3, sides>=3, >=2 path points ...) a panic is a failure",
+                "generator outputs above 4000 indices / 2500 vertices (thorough tier only) are judged by the harness's copy "
+                "of wfb instead of being rendered as Coq literals"],
     "modelled": ["Go map iteration order (attribute maps are modelled as one strictly sorted association list; "
                  "AttributeLength = length of its first entry)",
                  "iter.ArrayIterator, vector2/3/4 arithmetic on integer-valued float64 (exact below 2^53)"],
